@@ -374,10 +374,15 @@ class _W:
         cmn, cmx, cd = clamp(mn), clamp(mx), clamp(dflt)
         lo = cmn if mn is not None else parent.lo
         hi = cmx if mx is not None else parent.hi
+        lifted = False
+        if mn is not None and mx is None and parent.hi is not None and cmn is not None and cmn > parent.hi and "rounds" not in vals:
+            # an explicit minimum above the INHERITED maximum moves the maximum along (F26): the window is [min, min]
+            hi = cmn
+            lifted = True
         d = cd if dflt is not None else parent.d
         # consistency of what was given together with what is inherited
         raw_lo = mn if mn is not None else parent.lo
-        raw_hi = mx if mx is not None else parent.hi
+        raw_hi = mx if mx is not None else (hi if lifted else parent.hi)
         consistent = True
         if raw_lo is not None and raw_hi is not None and raw_hi < raw_lo:
             consistent = False
